@@ -18,6 +18,8 @@ type Gen struct {
 	epochN       int
 	touched      map[string]Sort
 	havocAllSeen bool
+	assertHit    map[*AssertSpec]bool // in-body assert clauses that matched a call site
+	obsLens      []Term // lengths taken with len() so far (see allocBound)
 	strLits      map[string]Term
 	strLitOrder  []string
 	actN         int
@@ -71,6 +73,7 @@ type deferRec struct {
 
 // Trans translates one activation (top-level or inlined) of an SSA function.
 type Trans struct {
+	locals map[string][]ssa.Value // see localDefs
 	g            *Gen
 	e            *Emitter
 	fn           *ssa.Function
@@ -389,6 +392,74 @@ func (tr *Trans) runBlocks(order []*ssa.BasicBlock, entrySt *State, entryRC Term
 							tr.e.oblige(&Obl{Name: fmt.Sprintf("%s#loop%d.entry:rangeindex", tr.label, li.ordinal), Kind: "invariant-entry", Props: tr.propsOf(), Cond: rc, Goal: ge(ev.C[0], intT(-1)), Fn: tr.label})
 						}
 						tr.e.assume(rc, ge(v.C[0], intT(-1)))
+					}
+				}
+				// monotone induction variables (i = i + k on every back edge, k a constant of one sign) of the integer types
+				// whose arithmetic is modelled without overflow: i stays on one side of its entry value. Inferred, not annotated.
+				for phi, v := range li.phiVals {
+					ev, ok := entryPhis[phi]
+					if !ok || len(v.C) != 1 || len(ev.C) != 1 {
+						continue
+					}
+					if bt, ok := under(phi.Type()).(*types.Basic); !ok || (bt.Kind() != types.Int && bt.Kind() != types.Int64) {
+						continue
+					}
+					up, down, other := false, false, false
+					// steps(v): the constant offsets k with v == phi + k along every way v is computed (through merges)
+					var steps func(v ssa.Value, acc int64, depth int) bool
+					steps = func(v ssa.Value, acc int64, depth int) bool {
+						if depth > 6 {
+							return false
+						}
+						if v == ssa.Value(phi) {
+							if acc > 0 {
+								up = true
+							}
+							if acc < 0 {
+								down = true
+							}
+							return true
+						}
+						switch x := v.(type) {
+						case *ssa.BinOp:
+							c, ok := x.Y.(*ssa.Const)
+							if !ok || c.Value == nil || (x.Op != token.ADD && x.Op != token.SUB) {
+								return false
+							}
+							k := c.Int64()
+							if x.Op == token.SUB {
+								k = -k
+							}
+							return steps(x.X, acc+k, depth+1)
+						case *ssa.Phi:
+							if !li.body[x.Block()] {
+								return false
+							}
+							for _, e := range x.Edges {
+								if !steps(e, acc, depth+1) {
+									return false
+								}
+							}
+							return true
+						}
+						return false
+					}
+					for pi, p := range b.Preds {
+						if !li.body[p] {
+							continue
+						}
+						if !steps(phi.Edges[pi], 0, 0) {
+							other = true
+						}
+					}
+					if other || up && down {
+						continue
+					}
+					if !down {
+						tr.e.assume(rc, ge(v.C[0], ev.C[0]))
+					}
+					if !up {
+						tr.e.assume(rc, le(v.C[0], ev.C[0]))
 					}
 				}
 				if !all {
